@@ -216,3 +216,110 @@ def r35b_specside(repo, sink):
                        "side of the same method does compare (`self.output_grid != info.grid`).")
     if base is not None and not any(c is base for c, *_ in cands):
         sink.unknown("R35b", "anchor:ARegridding._get_info", None, "ARegridding._get_info no longer requests with its own grid: shape unknown")
+
+
+# ========================================================================== R42
+def r42_forwarders(repo, sink):
+    """Components that hand pulled data on to their own output forward the pulled *quantity* itself (values with their units):
+    the output converts from the data's units to its own; a bare array is only labelled.  Decided by abstract runs of the real
+    _update / _connect bodies of the in-repo forwarding component(s) against recording slot stand-ins."""
+    from ..absbase import FinamInterp, Logger, Ref, seed_from_init, set_backed
+    from ..interp import Closure, Obj, Raised, Sym, Undecided
+
+    if not repo.has_cls("TimeTrigger"):
+        raise AnalysisError("TimeTrigger not found")
+    c = repo.cls("TimeTrigger")
+
+    class _F(FinamInterp):
+        def __init__(self, repo):
+            super().__init__(repo)
+            self.pulls, self.pushes, self.connects = [], [], []
+
+        def ext_isinstance(self, v, name, node):
+            if name == "datetime":
+                return isinstance(v, int) and not isinstance(v, bool)
+            return super().ext_isinstance(v, name, node)
+
+        def get_attr(self, obj, attr, node, mod):
+            if isinstance(obj, Obj) and "slot" in obj.markers and attr in ("pull_data", "push_data"):
+                return Sym("slotcall", Ref(obj), attr)
+            if isinstance(obj, Sym) and obj.op in ("pulled", "initial") and attr in ("magnitude", "units", "data"):
+                return Sym("attr", obj, attr)
+            return super().get_attr(obj, attr, node, mod)
+
+        def ext_call(self, name, args, kwargs, node):
+            if name.split(".")[0] in ("np", "numpy", "copy") and args and isinstance(args[0], Sym):
+                return Sym(name.split(".")[-1], *args)
+            return super().ext_call(name, args, kwargs, node)
+
+        def call_hook(self, fv, args, kwargs, node, mod):
+            if isinstance(fv, Sym) and fv.op == "slotcall":
+                slot, op = fv.args[0].obj, fv.args[1]
+                if op == "pull_data":
+                    v = Sym("pulled", slot.label, args[0])
+                    self.pulls.append((slot.label, args[0]))
+                    return v
+                self.pushes.append((slot.label, args[0], args[1] if len(args) > 1 else kwargs.get("time")))
+                return None
+            if isinstance(fv, Closure):
+                n = getattr(fv.func, "name", "")
+                if n == "try_connect":  # public API of Component
+                    self.connects.append((tuple(args), dict(kwargs)))
+                    return None
+                if n in ("get_magnitude", "strip_time", "get_units"):  # public API of finam.data.tools
+                    return Sym(n, *args)
+            return super().call_hook(fv, args, kwargs, node, mod)
+
+    def mk(it):
+        me = Obj(cls=c, label="TimeTrigger")
+        seed_from_init(it, c, me, {"start": 0, "step": 2, "in_info": None, "out_info": None, "start_from_input": True})
+        me.fields["logger"] = Logger(label="logger")
+        set_backed(repo, me, "inputs", {"In": Obj(label="In", markers={"slot"})})
+        set_backed(repo, me, "outputs", {"Out": Obj(label="Out", markers={"slot"})})
+        it.store_attr(me, "status", Sym("enum", "ComponentStatus", "VALIDATED"), None)
+        it.store_attr(me, "time", 0, None)
+        return me
+
+    up = repo.resolve(c, "_update", "method")
+    try:
+        it = _F(repo)
+        me = mk(it)
+        it.run(up, [], self_obj=me)
+        why, kind = None, None
+        if it.pulls != [("In", 2)]:
+            why = f"one update pulls {it.pulls!r}, expected the input once at the new time"
+        elif len(it.pushes) != 1 or it.pushes[0][0] != "Out":
+            why = f"one update publishes {it.pushes!r}, expected one publication on the output"
+        elif it.pushes[0][1] == Sym("pulled", "In", 2):
+            why = ("the update publishes the very object it pulled: a source that steps slower than the trigger serves one stored array for "
+                   "several consecutive pulls (nothing on the pull path copies when no conversion is needed), and Output.push_data refuses data that "
+                   "shares memory with its previous entry - a valid composition (source step 2 d, trigger step 1 d) aborts with FinamDataError; "
+                   "a copy of the quantity has to be published")
+            kind = "aliasing"
+        elif it.pushes[0][1] not in (Sym("copy", Sym("pulled", "In", 2)), Sym("deepcopy", Sym("pulled", "In", 2))):
+            why = (f"the update publishes {it.pushes[0][1]!r} instead of (a copy of) the pulled quantity: without its units the output only labels "
+                   "the numbers with its own units (10 degC arrive as 10 K) where it has to convert")
+        elif it.pushes[0][2] != 2:
+            why = f"the pulled data for time 2 is published for time {it.pushes[0][2]!r}"
+        if kind == "aliasing":
+            sink.bad("R42", "republishes-pulled-array:TimeTrigger._update", up, why)
+        else:
+            sink.check(why is None, "R42", "forwards-quantity:TimeTrigger._update", up,
+                       ok="pulls at the new time and publishes a copy of the pulled quantity (values with units) for that time", bad=why or "")
+    except (Raised, Undecided, AnalysisError) as exc:
+        sink.unknown("R42", "forwards-quantity:TimeTrigger._update", up, f"outside vocabulary: {exc}")
+    cn = repo.resolve(c, "_connect", "method")
+    try:
+        it = _F(repo)
+        me = mk(it)
+        conn = Obj(label="connector")
+        conn.fields.update(data_pushed={"Out": False}, in_data={"In": Sym("initial")}, in_infos={"In": None}, infos_pushed={"Out": True}, out_infos={"Out": None})
+        set_backed(repo, me, "connector", conn)
+        it.store_attr(me, "status", Sym("enum", "ComponentStatus", "CONNECTING"), None)
+        it.run(cn, [0], self_obj=me)
+        pd = [kw.get("push_data") for _a, kw in it.connects]
+        ok = len(pd) == 1 and pd[0] == {"Out": Sym("initial")}
+        sink.check(ok, "R42", "forwards-quantity:TimeTrigger._connect", cn, ok="the initial pull is handed to the output as it was pulled",
+                   bad=f"the connect phase hands {pd!r} to the output instead of the pulled initial quantity itself")
+    except (Raised, Undecided, AnalysisError) as exc:
+        sink.unknown("R42", "forwards-quantity:TimeTrigger._connect", cn, f"outside vocabulary: {exc}")
